@@ -123,6 +123,18 @@ def mk_input_graph(n, edges, src):
         for u, v in reversed(edges):
             G.add_edge(10 * v, 10 * u)
         return G
+    if src == 'nxt':
+        # networkx graph with tuple labels (what networkx's own grid generators
+        # give), coordinates with one and two digits: the documented order of
+        # non-numeric labels is their sorted order, (0, 9) before (0, 10)
+        import networkx
+        G = networkx.Graph()
+        lab = {v: (0, 7 + v) for v in range(1, n + 1)}
+        for v in range(n, 0, -1):
+            G.add_node(lab[v])
+        for u, v in reversed(edges):
+            G.add_edge(lab[v], lab[u])
+        return G
     if src == 'rev':
         from cnfgen.graphs import Graph
         G = Graph(n)
@@ -1093,7 +1105,7 @@ def cases(tier, seed):
     # ---- variants: OPB class / networkx input / reversed insertion ------
     vn = 4 if thorough else 3
     variants = [{'cls': 'OPB'}, {'src': 'nx'}, {'src': 'rev'}, {'cls': 'OPB', 'src': 'nx'},
-                {'src': 'grown'}, {'src': 'reused'}]
+                {'src': 'grown'}, {'src': 'reused'}, {'src': 'nxt'}]
     small = list(scope.simple_graphs_upto(3))
     for var in variants:
         for n, es in scope.simple_graphs_upto(4 if var == {'cls': 'OPB'} else vn):
